@@ -53,7 +53,8 @@ def _o(v):
     ones handed over before - the model's objects are compared with `==`, as `list.index/remove/in` do;
     object -k for the *string* str(1000*k): a different object with the same `str` (a name collision);
     900..909: the set {1000*k}, fresh each time - an *unhashable* object (`_named_objs` finds its name by
-    identity); 910..919: an object with a `name` attribute, one Python object per case (equal only to itself)"""
+    identity); 910..919: an object with a `name` attribute, 920..929: a function (labelled by `__name__`) - one
+    Python object per case each (equal only to itself)"""
     if v == 0:
         return None
     if 900 <= v < 910:
@@ -62,13 +63,21 @@ def _o(v):
         if v not in _NAMED:
             _NAMED[v] = _Named(v)
         return _NAMED[v]
+    if 920 <= v < 930:
+        if v not in _NAMED:
+            def fn():
+                return None
+            fn.__name__ = f'f{v}'
+            fn.k = v
+            _NAMED[v] = fn
+        return _NAMED[v]
     return int(str(1000 * v)) if v > 0 else str(1000 * -v)
 
 
 def _i(v):
     if v is None:
         return 0
-    if isinstance(v, _Named):
+    if isinstance(v, _Named) or (callable(v) and hasattr(v, 'k')):
         return v.k
     if isinstance(v, (set, frozenset)):
         (x,) = tuple(v)
@@ -137,7 +146,7 @@ def run_impl(case):
                     return len(a) == len(b) and all(same(x, y) for x, y in zip(list.__iter__(a) if isinstance(a, list) else a, list.__iter__(b) if isinstance(b, list) else b))
                 if isinstance(a, dict):
                     return len(a) == len(b) and all(k in b and same(v, b[k]) for k, v in a.items())
-                if isinstance(a, _Named):
+                if isinstance(a, _Named) or callable(a):
                     return False
                 return a == b
             want = sum(0 if same(a, b) else 1 for a, b in raw)
@@ -233,6 +242,7 @@ def _decls():
     yield 'Selector', {'objs': [1, 2], 'names': [['a', 1], ['b', 2]], 'check_on_set': False}
     # an unhashable object (a set) and an object labelled by its `name` attribute (`_named_objs`)
     yield 'Selector', {'objs': [900, 910, 2], 'names': None, 'check_on_set': True}
+    yield 'Selector', {'objs': [920, 2], 'names': None, 'check_on_set': True}
     yield 'Selector', {'objs': [900, 910, 2], 'names': [['a', 900], ['b', 910], ['c', 2]], 'check_on_set': True}
     # two unique objects with the same str(): the integer 1000 and the string '1000'
     yield 'Selector', {'objs': [1, -1, 2], 'names': None, 'check_on_set': True}
@@ -288,7 +298,7 @@ def _random_case(rng):
     objs = rng.sample(range(0, 9) if rng.random() < 0.85 else range(-3, 6), n)          # 0 = None, -k = the string str(1000*k)
     special = rng.random() < 0.2         # sets (unhashable) and objects with a `name` among the objects
     if special and n:
-        for j, sp in zip(rng.sample(range(n), min(n, 2)), rng.sample([900, 901, 910, 911], 2)):
+        for j, sp in zip(rng.sample(range(n), min(n, 2)), rng.sample([900, 901, 910, 911, 920], 2)):
             objs[j] = sp
     keys = rng.sample(['a', 'b', 'c', 'd', 'e', 'f', 'g', ''], n)
     decl = {'objs': objs, 'names': [[k, v] for k, v in zip(keys, objs)] if style == 'dict' else None,
@@ -308,7 +318,7 @@ def _random_case(rng):
         # the first such operation)
         newo = (lambda: next(fresh)) if not (malformed and rng.random() < 0.3) else (lambda: rng.choice([x for x in cur if x < 900] or [1]))
         if special and rng.random() < 0.25:
-            cands = [x for x in (900, 901, 902, 910, 911, 912) if x not in used_special and x not in objs]
+            cands = [x for x in (900, 901, 902, 910, 911, 912, 920, 921) if x not in used_special and x not in objs]
             if cands:
                 # each special object is put in at most once per case (then fresh integers)
                 c = rng.choice(cands)
